@@ -87,7 +87,8 @@ func (w *World) checkListExists(inst int) {
 		r.Fail("list/error", "List failed on a healthy store: %v", err)
 	}
 	wantN := 0
-	for u, m := range w.model {
+	for _, u := range sortedKeys(w.model) {
+		m := w.model[u]
 		if !m.Supported || !validName(u) {
 			continue
 		}
